@@ -12,7 +12,6 @@ use noodles_sam::{
     self as sam,
     alignment::{
         RecordBuf,
-        io::Read as _,
         record::{
             Flags, MappingQuality,
             cigar::{Op, op::Kind},
@@ -619,7 +618,7 @@ fn header_text(refs: &[RefDesc], hd: Option<&str>, rgs: &[String], extras: bool)
 
 fn make_refs(rng: &mut Rng, n: usize, lo: usize, hi: usize) -> Vec<RefDesc> {
     let styles = ["sq", "chr", "NC_0000", "HLA-A*01:01:0", "scaffold|"];
-    (0..n).map(|i| RefDesc { name: format!("{}{}", styles[i % styles.len()], i), seq: rand_ref(rng, rng.urange(lo, hi)) }).collect()
+    (0..n).map(|i| RefDesc { name: format!("{}{}", styles[i % styles.len()], i), seq: { let l = rng.urange(lo, hi); rand_ref(rng, l) } }).collect()
 }
 
 pub const DET_CLASSES: &[&str] = &[
@@ -646,11 +645,11 @@ pub fn make_set(class: &str, seed: u64) -> ASet {
     let (header_text, refs, recs): (String, Vec<RefDesc>, Vec<Aln>) = match class {
         "empty-header-no-records" => (String::new(), Vec::new(), Vec::new()),
         "header-only" => {
-            let refs = make_refs(rng, rng.urange(1, 6), 50, 400);
+            let refs = { let k = rng.urange(1, 6); make_refs(rng, k, 50, 400) };
             (header_text(&refs, hd.or(Some("@HD\tVN:1.6")), &rgs, true), refs, Vec::new())
         }
         "header-only-no-hd" => {
-            let refs = make_refs(rng, rng.urange(1, 3), 50, 400);
+            let refs = { let k = rng.urange(1, 3); make_refs(rng, k, 50, 400) };
             (header_text(&refs, None, &[], false), refs, Vec::new())
         }
         "one-mapped" => {
@@ -669,15 +668,15 @@ pub fn make_set(class: &str, seed: u64) -> ASet {
             (header_text(&refs, hd, &rgs, rng.bool()), refs, recs)
         }
         "many-mixed" => {
-            let refs = make_refs(rng, rng.urange(1, 3), 200, 1500);
+            let refs = { let k = rng.urange(1, 3); make_refs(rng, k, 200, 1500) };
             let n = rng.urange(10, 200);
             let recs = (0..n).map(|i| rand_record(rng, i, &refs, &rgs, &o(true, true, 160))).collect();
             (header_text(&refs, hd, &rgs, rng.bool()), refs, recs)
         }
         "multi-reference" => {
-            let refs = make_refs(rng, rng.urange(3, 9), 100, 900);
+            let refs = { let k = rng.urange(3, 9); make_refs(rng, k, 100, 900) };
             let n = rng.urange(8, 120);
-            let recs = (0..n).map(|i| rand_record(rng, i, &refs, &rgs, &o(true, rng.bool(), 120))).collect();
+            let recs = (0..n).map(|i| { let u = rng.bool(); rand_record(rng, i, &refs, &rgs, &o(true, u, 120)) }).collect();
             (header_text(&refs, hd, &rgs, rng.bool()), refs, recs)
         }
         "few-long" => {
@@ -728,7 +727,6 @@ pub fn write_generic(fmt: AFmt, header: &sam::Header, recs: &[RecordBuf], repo: 
 pub struct ReadBack {
     pub refs: Vec<(String, usize)>,
     pub lines: Vec<String>,
-    pub header_text_len: usize,
 }
 
 fn header_refs(h: &sam::Header) -> Vec<(String, usize)> {
